@@ -568,6 +568,29 @@ func c02Drain(c *Ctx, f *eng.Func, doneCh, qpeers, stopFn eng.Object) {
 	}
 	ok, w := cf.MustPass(armStart, eng.LocSet(outs...), eng.LocSet(incLoc))
 	c.CheckW(K(f.Name, "count before leaving the arm"), arm.Pos(), ok, "a received completion is counted before the arm can be left (otherwise the drain waits for a signal that never comes)", "the arm can be left without counting the completion", cf.DescribePath(w))
+	// leaving the wait through the context marks the lookup incomplete
+	{
+		var clears []eng.Loc
+		for _, as := range assignsTo(f, func(l ast.Expr) bool { return eng.IsField(info, l, "dht.lookupWithFollowupResult.completed") }) {
+			if isBoolConst(info, as.Rhs[0], false) {
+				clears = append(clears, cf.LocOf(as))
+			}
+		}
+		var couts []eng.Loc
+		couts = append(couts, cf.Exits(false)...)
+		for _, b := range cf.G.Blocks {
+			if !b.Live {
+				continue
+			}
+			for i, n := range b.Nodes {
+				if !eng.Contains(ctxArm, n) {
+					couts = append(couts, eng.Loc{B: b, I: i})
+				}
+			}
+		}
+		okc, wc := cf.MustPass(cf.LocOf(ctxArm.Comm), eng.LocSet(couts...), eng.LocSet(clears...))
+		c.CheckW(K(f.Name, "cancelled wait is incomplete"), ctxArm.Pos(), okc, "a follow-up cut short by the context is reported as not completed", "the ctx.Done() arm can be left with completed still set", cf.DescribePath(wc))
+	}
 	// drain: for i := counter; i < len(queryPeers); i++ { <-doneCh } behind !completed
 	okDrain := false
 	f.Walk(func(n ast.Node) bool {
